@@ -206,14 +206,21 @@ TRANS_TRUSTED = "tie T3 = tools/gotrans: the listed Go functions / statement seg
 _TF = ["TransEquiv.GetFIN_eq", "TransEquiv.GetRSV1_eq", "TransEquiv.GetRSV2_eq", "TransEquiv.GetRSV3_eq", "TransEquiv.GetOpcode_eq", "TransEquiv.GetMask_eq",
        "TransEquiv.GetLengthCode_eq", "TransEquiv.isDataFrame_eq"]
 _TR = ["TransEquiv.readMessage_header_eq", "TransEquiv.readControl_guards_eq"]
+_TC = ["TransEquiv.emitClose_body_eq", "TransEquiv.local_close_body_eq", "TransEquiv.closeViaWrite_split_eq", "TransEquiv.StatusCode_Bytes_eq",
+       "TransEquiv.CheckEncoding_eq", "TransEquiv.classify_u16"]
+_TN = ["TransEquiv.setThreshold_eq", "TransEquiv.initServerOption_pd_eq", "TransEquiv.initClientOption_pd_eq"]
+_TL = ["TransEquiv.initServerOption_limits_pos", "TransEquiv.initClientOption_limits_pos"]
 _TRANS = {
     "C03": (["Gws.Props.TransFrame", "Gws.Props.TransReader"], _TF + _TR),
-    "C04": (["Gws.Props.TransFrame", "Gws.Props.TransReader", "Gws.Props.TransWindow"], _TF + _TR + ["TransEquiv.binaryCeil_eq", "TransEquiv.Max_eq"]),
-    "C13": (["Gws.Props.TransFrame", "Gws.Props.TransReader"], _TF + _TR),
-    "C05": (["Gws.Props.TransFrame"], ["TransEquiv.SetLength_eq", "TransEquiv.GenerateHeader_eq"]),
-    "C06": (["Gws.Props.TransClose"], ["TransEquiv.emitClose_classify_eq"]),
+    "C04": (["Gws.Props.TransFrame", "Gws.Props.TransReader", "Gws.Props.TransWindow", "Gws.Props.TransNego"], _TF + _TR + ["TransEquiv.binaryCeil_eq", "TransEquiv.Max_eq"] + _TL),
+    "C13": (["Gws.Props.TransFrame", "Gws.Props.TransReader", "Gws.Props.TransNego"], _TF + _TR + _TL),
+    "C05": (["Gws.Props.TransFrame", "Gws.Props.TransClose"], ["TransEquiv.SetLength_eq", "TransEquiv.GenerateHeader_eq", "TransEquiv.local_close_body_eq"]),
+    "C06": (["Gws.Props.TransClose"], _TC),
+    "C16": (["Gws.Props.TransClose"], ["TransEquiv.CheckEncoding_eq", "TransEquiv.emitClose_body_eq"]),
+    "C12": (["Gws.Props.TransNego"], _TN),
+    "C01": (["Gws.Props.TransNego"], ["TransEquiv.setThreshold_eq"]),
     "C17": (["Gws.Props.TransWindow"], ["TransEquiv.slideWindow_Write_eq", "TransEquiv.BinaryPow_eq"]),
-    "C02": (["Gws.Props.TransWindow"], ["TransEquiv.slideWindow_Write_eq", "TransEquiv.BinaryPow_eq"]),
+    "C02": (["Gws.Props.TransWindow", "Gws.Props.TransNego"], ["TransEquiv.slideWindow_Write_eq", "TransEquiv.BinaryPow_eq", "TransEquiv.setThreshold_eq"]),
 }
 for _p, (_mods, _ths) in _TRANS.items():
     PROPS[_p]["trans_modules"] = _mods
